@@ -10,6 +10,7 @@ import (
 	"testing"
 	"time"
 
+	"mosn.io/mosn/pkg/upstream/cluster"
 	"pgregory.net/rapid"
 
 	"verif/ev"
@@ -22,6 +23,11 @@ type Batch struct {
 	Conns []ConnPlan `json:"conns"`
 	Kill  string     `json:"kill,omitempty"` // "" | fin | rst : last phase closes every upstream connection
 	Probe int        `json:"probe,omitempty"`
+	// PoolShutdownMs: at these offsets from the start of the batch the connection pools of every upstream address are
+	// shut down through the cluster manager (ShutdownConnectionPool, what the tunnel's host remover does): the pool
+	// object is dropped by the manager, the next request builds a new one; whatever the old pool still holds must be
+	// given back when its connections end.
+	PoolShutdownMs []int `json:"sd,omitempty"`
 }
 
 func (b *Batch) json() string { x, _ := json.Marshal(b); return string(x) }
@@ -36,7 +42,7 @@ func genAttempt(rt *rapid.T, proto string, label string) Attempt {
 	case k < 54:
 		return Attempt{Kind: "ok", DelayMs: rapid.IntRange(1, 50).Draw(rt, label+"delay")}
 	case k < 70:
-		if proto == "Http1" {
+		if h1Down(proto) {
 			return Attempt{Kind: "err", Status: rapid.SampledFrom([]int{500, 502, 503, 504}).Draw(rt, label+"status")}
 		}
 		return Attempt{Kind: "err", Status: rapid.SampledFrom([]int{2, 4, 7, 16}).Draw(rt, label+"status")}
@@ -97,7 +103,7 @@ func genSetup(rt *rapid.T, protos []string) Setup {
 }
 
 func genBatch(rt *rapid.T) *Batch {
-	b := &Batch{Setup: genSetup(rt, []string{"Http1", "Http1", "Http1", "bolt", "bolt", "boltpp", "tcp", "tcp"})}
+	b := &Batch{Setup: genSetup(rt, []string{"Http1", "Http1", "Http1", "bolt", "bolt", "boltpp", "tcp", "tcp", "h2up"})}
 	// "patient proxy": the timeouts are far beyond the batch (20 s, no per-try timeout) and every client gives up after a
 	// drawn delay: the disconnect paths run without a timer firing in the same moment. The books are compared once the
 	// stalled upstreams have been released.
@@ -123,7 +129,7 @@ func genBatch(rt *rapid.T) *Batch {
 		return rp
 	}
 	switch b.Proto {
-	case "Http1":
+	case "Http1", "h2up":
 		n := rapid.IntRange(1, 32).Draw(rt, "conns")
 		for i := 0; i < n; i++ {
 			cp := ConnPlan{StartMs: rapid.SampledFrom([]int{0, 0, 0, 1, 3, 10, 30, 80}).Draw(rt, "startMs")}
@@ -184,6 +190,11 @@ func genBatch(rt *rapid.T) *Batch {
 	}
 	b.Kill = rapid.SampledFrom([]string{"", "fin", "rst"}).Draw(rt, "kill")
 	b.Probe = rapid.IntRange(0, 4).Draw(rt, "probe")
+	if b.Proto != "tcp" && rapid.IntRange(0, 3).Draw(rt, "poolShutdown") == 0 {
+		for i, n := 0, rapid.IntRange(1, 2).Draw(rt, "nPoolShutdowns"); i < n; i++ {
+			b.PoolShutdownMs = append(b.PoolShutdownMs, rapid.SampledFrom([]int{0, 2, 5, 20, 50, 90, 140}).Draw(rt, "poolShutdownMs"))
+		}
+	}
 	return b
 }
 
@@ -376,7 +387,7 @@ func (br *batchRun) runTCP(cp *ConnPlan) {
 // probeOnce sends one plain request (tcp: one echo session) and reports how it ended.
 func (r *rig) probeOnce(tok string) outcome {
 	switch r.su.Proto {
-	case "Http1":
+	case "Http1", "h2up":
 		c, err := mesh.DialH1(r.c.Addr)
 		if err != nil {
 			return outcome{Status: -2}
@@ -508,12 +519,23 @@ func (r *rig) execConns(conns []ConnPlan) *batchRun {
 		go func() {
 			defer wg.Done()
 			switch r.su.Proto {
-			case "Http1":
+			case "Http1", "h2up":
 				br.runH1(cp)
 			case "tcp":
 				br.runTCP(cp)
 			default:
 				br.runBolt(cp)
+			}
+		}()
+	}
+	for _, ms := range r.poolShutdownMs {
+		ms := ms
+		wg.Add(1)
+		go func() {
+			defer wg.Done()
+			time.Sleep(time.Duration(ms) * time.Millisecond)
+			for _, a := range r.addrs {
+				cluster.GetClusterMngAdapterInstance().ShutdownConnectionPool("", a)
 			}
 		}()
 	}
@@ -555,6 +577,9 @@ func runBatch(t ev.TB, part string, b *Batch) (classes []string, nontrivial bool
 		return nil, false, false
 	}
 	r.startSampler()
+	if b.Proto != "tcp" { // the tcp proxy has no pools
+		r.poolShutdownMs = b.PoolShutdownMs
+	}
 	br := r.execConns(b.Conns)
 	closeKept := br.closeKept
 	defer closeKept()
@@ -603,6 +628,9 @@ func runBatch(t ev.TB, part string, b *Batch) (classes []string, nontrivial bool
 	}
 	if atomic.LoadInt32(&br.disconnects) > 0 {
 		cls["disconnect"] = true
+	}
+	if len(r.poolShutdownMs) > 0 {
+		cls["pool-shutdown"] = true
 	}
 	if b.Proto == "tcp" && b.Thr[thrConn] != 0 && allOK(b.Hosts) {
 		for i := range b.Conns {
